@@ -19,8 +19,9 @@ RULE = (
     'the transmissivity ceiling, cells <= 60 mm, ascending and descending, '
     'refined. Oracle: t[i]-t[i-1] equals an independent quadrature of '
     'Sy/(-ET - curvature*T) with all knots as break points and T taken from '
-    'the closed form (rtol 1e-6 since the code integrates knot by knot; was '
-    '1e-4 before that repair, DESIGN 3.7); time strictly increases as the '
+    'the closed form (rtol 1e-6 since the code integrates knot by knot, plus '
+    'quad\'s own absolute tolerance 3e-8 d per cell; was 1e-4 before that '
+    'repair, DESIGN 3.7); time strictly increases as the '
     'level falls; differences at shared levels invariant under refinement '
     'and reversal; with curvature 0, ET*(t[i]-t[j]) = -(W[i]-W[j]) with W '
     'from compute_rise_curve; mean = requested mean. CLI level (part cli): '
@@ -136,7 +137,13 @@ def check(case):
     refs = np.array(refs)
     scale = np.abs(refs).sum() + 1e-12
     dt = np.diff(t)
-    bad = np.nonzero(np.abs(dt - refs) > 1e-6 * np.abs(refs) + 1e-8 * scale)[0]
+    # quad's default absolute tolerance (1.49e-8 per cell, in days) bounds
+    # what the code can resolve where the integrand is minute (PEATCLSM
+    # transmissivity close to its ceiling): 3e-8 d = 2.6 ms
+    # ... and differences of the accumulated curve cannot be finer than its
+    # floating-point resolution
+    floor = 3e-8 + 8 * np.finfo(float).eps * np.abs(t).max()
+    bad = np.nonzero(np.abs(dt - refs) > 1e-6 * np.abs(refs) + floor)[0]
     if len(bad):
         i = int(bad[0])
         raise Violation(
@@ -148,7 +155,13 @@ def check(case):
     sy_positive = bool((np.asarray(sy(dense), dtype=float) > 0).all())
     # (a cubic spline through positive knots may dip below zero in between;
     # the statement's monotonicity presupposes a positive specific yield)
-    if sy_positive and not (dt < 0).all():
+    # strictly increasing wherever the increment is resolvable: a cell whose
+    # exact increment is below quad's absolute tolerance or below the
+    # floating-point resolution of the accumulated curve may come out as 0
+    resolution = 3e-8 + 8 * np.finfo(float).eps * np.abs(t).max()
+    resolvable = np.abs(refs) > resolution
+    if sy_positive and ((dt[resolvable] >= 0).any()
+                        or (dt > resolution).any()):
         raise Violation('recession-time-not-increasing-as-level-falls',
                         repr(dt.tolist()))
     if abs(t.mean() - case['mean']) > 1e-9 * (scale + abs(case['mean'])):
@@ -372,7 +385,8 @@ def check_cli(case):
                     integrand, p, q, epsabs=0, epsrel=1e-11, limit=200)[0]
             # integral from b up to a of f (negative) = t(a) - t(b)
             want = -total  # t(b) - t(a) > 0
-            if abs((tb - ta) - want) > 1e-4 * abs(want) + 1e-9 * sscale:
+            if abs((tb - ta) - want) > (1e-4 * abs(want) + 1e-9 * sscale
+                                        + 3e-8):
                 raise Violation(
                     'recession-table-not-water-balance',
                     'levels {}..{}: {!r} vs {!r} (ET {!r}, curvature '
